@@ -244,7 +244,7 @@ func init() {
 	engine.Register(&engine.Prop{
 		ID:    "C01",
 		Level: "model_checking",
-		Rule: "every content list of length <=2 over the entry-template alphabet (39 templates + 15 packager-tagged; thorough adds triples over the 15 simplest and pairs under two deviating settings at once) " +
+		Rule: "every content list of length <=2 over the entry-template alphabet (39 templates + 15 packager-tagged; thorough adds triples over the 20 simplest and pairs under two deviating settings at once) " +
 			"x every <=1-deviation build setting (umask, mtime, disable_globbing, deb/rpm compression), each built for all five formats through Parse->Get->WithDefaults->Package; plus glob / directory / tree / file sources rebuilt after the source tree changed (file added, removed, rewritten with the same length, chmod, new mtime): the second package must reflect the changed tree; " +
 			"payload decoded by harness-owned readers and compared entry by entry with the reference plan; non-trivial = at least one payload entry decoded; distinct = distinct (format, decoded logical tree)",
 		Assumptions: []string{
@@ -557,7 +557,7 @@ func init() {
 						}
 					}
 				}
-				small := ts[:15]
+				small := ts[:20]
 				for _, a := range small {
 					for _, b := range small {
 						for _, c := range small {
